@@ -17,6 +17,20 @@ from .utils import make_list, ALL
 
 T = TypeVar("T")
 
+_SYMBOLIC_EXPRESSION_TYPE = None
+
+
+def _symbolic_expression_type() -> type:
+    """
+    :return: The class of symbolic expressions (the module that defines it imports this one).
+    """
+    global _SYMBOLIC_EXPRESSION_TYPE
+    if _SYMBOLIC_EXPRESSION_TYPE is None:
+        from .symbolic import SymbolicExpression
+
+        _SYMBOLIC_EXPRESSION_TYPE = SymbolicExpression
+    return _SYMBOLIC_EXPRESSION_TYPE
+
 
 @dataclass
 class HashedValue(Generic[T]):
@@ -44,7 +58,9 @@ class HashedValue(Generic[T]):
             self.id_ = self.value.id_
             self.value = self.value.value
             return
-        if hasattr(self.value, "_id_"):
+        # only a symbolic expression carries its identifier; any other object that answers to the name `_id_` (a field
+        # of that name, a permissive __getattr__) is identified like every other value
+        if isinstance(self.value, _symbolic_expression_type()):
             self.id_ = self.value._id_
         else:
             self.id_ = id(self.value)
